@@ -146,14 +146,22 @@ func init() {
 		if start < 0 {
 			start = 0
 		}
+		quirk := false
 		if end < 0 {
+			// an end index before the start of the string: Redis 7.0 clamps it to
+			// 0 and returns the first byte (redis issue 11738, changed later);
+			// both that and the empty string are accepted
 			end = 0
+			quirk = true
 		}
 		if end >= n {
 			end = n - 1
 		}
 		if n == 0 || start > end {
 			return eBulk("")
+		}
+		if quirk {
+			return eAlt(eBulk(o.S[start:end+1]), eBulk(""))
 		}
 		return eBulk(o.S[start : end+1])
 	}
